@@ -191,64 +191,74 @@ def register(I, R, hooks):
         if isinstance(v, bool) or isinstance(v, int) or is_sym(v):
             return tuple(dec_items(v))
         if isinstance(v, Adt) and v.ty in ("Mode", "SFlag") and v.variant is None:
-            raise Unsupported("Debug of bitflags")
+            bits = v.fields[0]
+            if not isinstance(bits, int):
+                return tuple([ord(c) for c in v.ty + "("] + [Seg("flags", bits, v.ty)] + [41])
+            names = []
+            rem = bits
+            for name, f in I.P.funcs.items():
+                if f.kind == "const" and _interp.short_type(f.ret or "") == v.ty and "::S_" in name:
+                    fb = I.eval_const_item(f).fields[0]
+                    if fb and (bits & fb) == fb and (rem & fb):
+                        names.append(name.split("::")[-1])
+                        rem &= ~fb
+            if rem:
+                names.append("%#x" % rem)
+            txt = " | ".join(names) if names else "0x0"
+            return tuple(ord(c) for c in "%s(%s)" % (v.ty, txt))
         # hand-written Debug impls of crate types take precedence over the structural rendering
         if isinstance(v, (Adt, Struct)):
             key = ("Debug", "fmt")
-            for pat, gens, fname, derived in I.P.trait_impls.get(key, []):
+            for pat, gens, fname, derived, _tf in I.P.trait_impls.get(key, []):
                 if _interp.type_head(pat) == v.ty and not derived:
                     flags = 0x60000020 | (ALT if alt else 0)
                     return call_fmt_impl(I, v, st, "Debug", flags, None)
-        nl = [10] + [32] * (4 * (indent + 1))
+        def pad(items):
+            """PadAdapter: indent every line of a nested pretty rendering by four spaces"""
+            out = [32, 32, 32, 32]
+            for c in items:
+                out.append(c)
+                if c == 10:
+                    out += [32, 32, 32, 32]
+            return out
+
+        def seq(open_, close, parts, named=None):
+            out = list(open_)
+            if alt:
+                out.append(10)
+                for i, f in enumerate(parts):
+                    inner = list(debug(I, f, st, True))
+                    if named:
+                        inner = [ord(c) for c in named[i]] + [58, 32] + inner
+                    out += pad(inner) + [44, 10]
+            else:
+                for i, f in enumerate(parts):
+                    if i:
+                        out += [44, 32]
+                    if named:
+                        out += [ord(c) for c in named[i]] + [58, 32]
+                    out += list(debug(I, f, st, False))
+            return tuple(out + list(close))
+
         if isinstance(v, Adt):
             name = [ord(c) for c in (v.variant or v.ty)]
             if not v.fields:
                 return tuple(name)
-            out = name + [40]
-            for i, f in enumerate(v.fields):
-                if alt:
-                    out += nl + list(debug(I, f, st, alt, indent + 1)) + [44]
-                else:
-                    if i:
-                        out += [44, 32]
-                    out += list(debug(I, f, st, alt, indent))
-            if alt:
-                out += [10] + [32] * (4 * indent)
-            out.append(41)
-            return tuple(out)
+            return seq(name + [40], [41], v.fields)
         if isinstance(v, Struct):
-            out = [ord(c) for c in v.ty] + [32, 123]
-            for i, (n, f) in enumerate(zip(v.names, v.fields)):
-                if alt:
-                    out += nl + [ord(c) for c in n] + [58, 32] + list(debug(I, f, st, alt, indent + 1)) + [44]
-                else:
-                    out += ([44] if i else []) + [32] + [ord(c) for c in n] + [58, 32] + list(debug(I, f, st, alt, indent))
-            out += ([10] + [32] * (4 * indent) if alt else [32]) + [125]
-            return tuple(out)
+            name = [ord(c) for c in v.ty]
+            if alt:
+                return seq(name + [32, 123], [125], v.fields, v.names)
+            return seq(name + [32, 123, 32], [32, 125], v.fields, v.names)
         if isinstance(v, (VecV, SliceV)):
             items = v.items if isinstance(v, VecV) else v.elems()
             if not items:
                 return (91, 93)
-            out = [91]
-            for i, f in enumerate(items):
-                if alt:
-                    out += nl + list(debug(I, f, st, alt, indent + 1)) + [44]
-                else:
-                    if i:
-                        out += [44, 32]
-                    out += list(debug(I, f, st, alt, indent))
-            if alt:
-                out += [10] + [32] * (4 * indent)
-            out.append(93)
-            return tuple(out)
+            return seq([91], [93], items)
         if isinstance(v, tuple):
-            out = [40]
-            for i, f in enumerate(v):
-                if i:
-                    out += [44, 32]
-                out += list(debug(I, f, st, alt, indent))
-            out.append(41)
-            return tuple(out)
+            if not v:
+                return (40, 41)
+            return seq([40], [41], v)
         raise Unsupported("Debug of %r" % (v,))
 
     def render_arg(I, arg, st, flags, width):
